@@ -1,4 +1,5 @@
 import Driver.Common
+import Driver.ViewTwin
 import Driver.ObjFmt
 import Driver.C02
 import Driver.C06
@@ -35,6 +36,16 @@ open Parsley Parsley.Prim Parsley.Obj Parsley.ObjStm Parsley.ObjStmSpec Parsley.
                      correspondence and no panic
    The /DecodeParms dictionary of a predictor layer is written by the spec-side writer PredSpec.Params.entries:
    an omission mask leaves out any subset of the entries whose value is the default of ISO 32000-1 Table 8.
+
+   View variant (Driver/ViewTwin.lean):   vw <steps> <prehex> <sufhex> <case line as above>
+   the same case with ObjStreamP running on a RESTRICTED VIEW: <prehex> ++ <viewhex> ++ <sufhex> is one allocation,
+   the chain of RestrictView / RestrictViewFrom <steps> selects the window <viewhex> in it (this is how the crate
+   reaches an object stream: the stream's content inside the file's buffer).  <cur> and the reported cursor are
+   cursors of that view; member spans stay relative to the content part of the (decoded) data.  Model and oracle
+   are those of the case on the window's bytes alone (C17 `view_refines_copy`: a view behaves like a copy of its
+   window) - the expected line after `=>` is unchanged; oracle classes are prefixed `view-`.
+   Additional classes: cut (a stream whose view ends inside it: kind rej where a member is damaged or missing,
+   rt where only trailing junk is cut), cutflate (the zlib stream of a Flate'd object stream cut: rej).
 -/
 
 def sexpOpt : Option Obj → String
@@ -83,13 +94,15 @@ def parseCase (line : String) : Option Case :=
     | _, _, _, _ => none
   | _ => none
 
-def model (line : String) : String :=
+/-- `fault`: given the window, what the harness answers when the steps of a `vw` case do not select it -/
+def modelPlain (line : String) (fault : Bytes → Option String) : String :=
   match parseCase line with
   | none => "bad-case"
   | some c =>
     -- the dictionary is given as text and read by the (shared) object parser on both sides
     match (parseObj ⟨0, 64⟩ c.dict 0).1 with
     | (.ok ⟨.dict kvs, _, _⟩, _) =>
+      if let some f := fault c.view then f else
       let defs : Defs := c.predef.foldl (fun d k => (defsInsert k (preVal k) d).2) []
       let ctx : Ctx := ⟨defs, ⟨0, c.maxd⟩, false⟩
       -- the decoders are the ones the loader instantiates the parser with (C06 filters, C07 predictor tail)
@@ -101,6 +114,16 @@ def model (line : String) : String :=
       | (.err _, _) => "err"
       | (.panic p, _) => s!"panic {p}"
     | _ => "bad-dict"
+
+/-- A case on a restricted view is modelled by the case on its window (C17 `view_refines_copy`), after checking by
+    the bounds rules of transforms.rs that the steps select exactly that window. -/
+def model (line : String) : String :=
+  match ViewTwin.splitVw line with
+  | some (steps, pre, suf, rest) =>
+    match ViewTwin.parseSteps steps, bytesOfHex pre, bytesOfHex suf with
+    | some st, some pre, some suf => modelPlain rest fun win => ViewTwin.viewFault st pre win suf
+    | _, _, _ => "bad-case"
+  | none => modelPlain line fun _ => none
 
 /-! ### the oracle of the exhaustive stream: a reader for the alphabet {digits, blank, x} -/
 
@@ -148,7 +171,7 @@ def exParts (c : Case) : Option (Bytes × Nat × Nat) :=
     | _, _, _ => none
   | _ => none
 
-def judge (case impl : String) : String :=
+def judgePlain (case impl : String) : String :=
   let impl := impl.trimAscii.toString
   if impl.startsWith "panic" || impl.startsWith "crash" then "bad panic-or-crash " ++ impl else
   match parseCase case with
@@ -171,6 +194,23 @@ def judge (case impl : String) : String :=
         else s!"bad wrong-members[small] want={w}"
       | none => "skip"
     | _ => "ok"
+
+/-- A case on a restricted view is judged as the case on the window's bytes: the expectation (the line after `=>`,
+    the rejection rule, the small reader) is that of the case itself - what lies in front of the window and behind
+    it, and where the window lies in the allocation, does not enter it. -/
+def judge (case impl : String) : String :=
+  match ViewTwin.splitVw case with
+  | some (steps, pre, suf, rest) =>
+    match ViewTwin.parseSteps steps, bytesOfHex pre, bytesOfHex suf, parseCase rest with
+    | some st, some pre, some suf, some c =>
+      match ViewTwin.viewFault st pre c.view suf with
+      | some f => s!"bad desc-mismatch the steps do not select the window ({f})"
+      | none =>
+        let t := impl.trimAscii.toString
+        if t == "view-error" || t == "view-mismatch" then s!"bad view {t}: the restriction does not show the window's bytes"
+        else ViewTwin.viewVerdict (judgePlain rest impl)
+    | _, _, _, _ => "skip"
+  | none => judgePlain case impl
 
 /-! ### generators -/
 
@@ -602,7 +642,97 @@ def genTight (seed : Nat) (tier : String) (emit : String → IO Unit) : IO Unit 
       let ms := seqOf short 8 k ++ seqOf short (n - 8) k2
       for l in tightLines seed idx (mkTight ms (tightIds n idx) false (idx % 8)) (nbrOf idx) (idx % 2 == 0) do emit l
 
-def gen (seed n : Nat) (tier : String) (emit : String → IO Unit) : IO Unit := do
+/-! ### every case once more on a restricted view
+
+  A case line is followed by the same case inside a larger allocation (Driver/ViewTwin.lean).  Three axes, cycled
+  by the running counter `c` with pairwise coprime periods (16, 7, 5: every combination occurs within 560 twins):
+  * bytes in front of the window: 1, 7, 11, 1000 (and 0, 2, 3, 5, 13, 64) of them - a rotation of a text holding a
+    header line, a complete object stream object and a complete plain object; or random bytes;
+  * the chain of restrictions: RestrictView; RestrictViewFrom; From then View; View then View with junk on both
+    sides of the inner window; View then From; a View starting at 0 then From; three deep;
+  * bytes behind the window that CONTINUE or COMPLETE the stream: ` 0 R …` and digits (an integer member ending at the
+    window's end would become a reference / a longer number), more objects, the content again behind a /First that
+    points to the window's end or beyond it, integers at every position an offset beyond the window could point to,
+    the cut-off rest of a truncated stream / of a truncated encoded layer, `endstream endobj` text; nothing - so that
+    an implementation reading beyond the view's end returns other members or accepts what must be rejected. -/
+
+def viewJunk : Bytes :=
+  bs "%PDF-1.5\n5 0 obj<</Type/ObjStm/N 2/First 8>>stream\n1 0 2 2 7 [8]\nendstream endobj\n3 0 obj (x) endobj\n"
+
+/-- the view twin of a case line; `cont` = what continues THIS case behind its window, if known; `force`: the
+    suffix is `cont` whatever the counter says (and the chain is one that can have something behind the window) -/
+def viewLine (c : Nat) (line : String) (cont : Option Bytes) (force : Bool := false) : Option String :=
+  (parseCase line).map fun cs =>
+    let c := if force && ViewTwin.shapeNoSuffix c then c + 1 else c
+    -- exhaustive small space: digits where an offset at / one beyond the end of the content points to
+    let cont := if cs.kind == "ex" then some (bs "1 2 1 2 ") else cont
+    let suf : Bytes := if force then cont.getD [] else
+      match c % 5 with
+      | 0 => cont.getD (bs " 0 R ]) >> endobj")
+      | 1 => []
+      | 2 => cont.getD (bs "7 0 R 8 9 10 ")
+      | 3 => cont.getD (bs "\n7 7 7 7 7 7 7 7 7 7 7 7 7 7 7 7 7 7 7 7 7 7 ")
+      | _ => bs "\nendstream\nendobj\n9 0 obj [1 2] endobj\n"
+    ViewTwin.wrap c viewJunk cs.view suf line
+
+/-- CUT family: well-formed streams (minimal header; members whose spelling is DELIMITED - strings, arrays,
+    dictionaries, hex strings - so that every proper prefix of a member is not an object) with the view ending at
+    every byte, the rest of the stream lying behind the view.  A view that ends before the end of the last member
+    damages a member or leaves one out: rej; one that only loses trailing junk: the same members (rt).  Each cut
+    also as a plain buffer.  Then one such stream FlateDecode'd (stored block), the zlib stream cut at every byte. -/
+def cutFamily (emit : String → IO Unit) (full : Bool) : IO Unit := do
+  let pool : List (Bytes × Obj) :=
+    [(bs "(ab)", .str (bs "ab")), (bs "[1 2]", .arr [.int 1, .int 2]), (bs "<</K 1>>", .dict [(bs "K", .int 1)]),
+     (bs "<41>", .str [65]), (bs "[(x)]", .arr [.str (bs "x")])]
+  let seqs : List (List Nat) := [[0], [1], [2], [3, 0], [1, 4], [2, 1, 0], [4, 3, 2, 1]]
+  let mut k := 0
+  let mut sel := 0
+  for sq in seqs do
+    sel := sel + 1
+    let ms := sq.filterMap fun i => pool[i]?
+    let n := ms.length
+    let t := mkTight ms (tightIds n sel) (sel % 2 == 0) (sel % 8)
+    let trail : Bytes := if sel % 3 == 0 then [] else bs " x"
+    let data := t.hdr ++ t.content ++ trail
+    let first := t.hdr.length
+    let endLast := first + t.content.length
+    let dict := bs s!"<</Type /ObjStm /N {n} /First {first}>>"
+    let want := memberWant t.b t.ps [] 0
+    for cut in List.range (data.length + 1) do
+      k := k + 1
+      if full || k % 2 == 0 || cut + 1 ≥ endLast then
+        let line := if cut ≥ endLast then s!"rt cut {t.b.maxd} 0 - {hexOfBytes dict} {hexOfBytes (data.take cut)} = => {want}"
+                    else s!"rej cut {t.b.maxd} 0 - {hexOfBytes dict} {hexOfBytes (data.take cut)} ="
+        if cut < data.length then emit line
+        if let some l := viewLine k line (some (data.drop cut)) true then emit l
+  -- behind FlateDecode: every cut of the zlib stream before its end is rejected (C14.objstm_truncated_flate_rejects)
+  let ms := [0, 1].filterMap fun i => pool[i]?
+  let t := mkTight ms [3, 8] false 0
+  let data := t.hdr ++ t.content
+  let z := zlibStored data
+  let dictF := bs s!"<</Type /ObjStm /N 2 /First {t.hdr.length} /Filter /FlateDecode>>"
+  for cut in List.range z.length do
+    k := k + 1
+    let line := s!"rej cutflate {t.b.maxd} 0 - {hexOfBytes dictF} {hexOfBytes (z.take cut)} ="
+    if full || k % 2 == 0 then emit line
+    if let some l := viewLine k line (some (z.drop cut)) true then emit l
+
+def gen (seed n : Nat) (tier : String) (emit0 : String → IO Unit) : IO Unit := do
+  -- every case is emitted twice: as it is, and on a restricted view (quick tier: of the two big systematic
+  -- enumerations - the exhaustive small space `ex` and the minimal-layout classes `tight…` - every second case)
+  let ctr ← IO.mkRef 0
+  let all ← IO.mkRef 0
+  let emitC (cont : Option Bytes) (line : String) : IO Unit := do
+    emit0 line
+    let a ← all.modifyGet fun a => (a, a + 1)
+    let big := line.startsWith "ex " || ((line.splitOn " ")[1]?.getD "").startsWith "tight"
+    if tier == "thorough" || !big || a % 2 == 0 then
+      let c ← ctr.modifyGet fun c => (c, c + 1)
+      match viewLine c line cont with
+      | some l => emit0 l
+      | none => pure ()
+  let emit := emitC none
+  cutFamily emit0 (tier == "thorough")
   genTight seed tier emit
   -- exhaustive small space: contents over {1,2,blank,x} × all offset pairs
   let alphabet : List UInt8 := [49, 50, 32, 120]
@@ -721,7 +851,9 @@ def gen (seed n : Nat) (tier : String) (emit : String → IO Unit) : IO Unit := 
         r := r31
         let k := arg % enc.length
         let encMut := if opSel == 0 then enc.take k else setNth enc k nb
-        emit s!"mut filt {maxd} {junk.length} {predefStr pre} {hexOfBytes dictC} {hexOfBytes (junk ++ encMut)} ="
+        -- (on a view: behind a truncated layer lies its rest)
+        emitC (if opSel == 0 then some (enc.drop k ++ C06.eolBytes eol) else none)
+          s!"mut filt {maxd} {junk.length} {predefStr pre} {hexOfBytes dictC} {hexOfBytes (junk ++ encMut)} ="
     -- the same stream through ONE FlateDecode layer with a predictor, enumerated systematically: predictor
     -- 2, 10..14 x {single-column image, rows of several pixels, one row} x geometry choice x the writer's
     -- omission choice {all default-valued entries left out, /Columns left out, all written, a random mask};
@@ -779,7 +911,9 @@ def gen (seed n : Nat) (tier : String) (emit : String → IO Unit) : IO Unit := 
     | 2 =>
       -- /First at or beyond the end of the data
       let f' := data.length + (if x % 3 == 0 then 0 else if x % 3 == 1 then 1 else x)
-      emit (line "rej" "first" maxd pre (bs s!"<</Type /ObjStm /N {nobj} /First {f'}>>") data "")
+      -- (on a view: behind the window lies the content once more, where /First points to)
+      emitC (some (List.replicate (f' - data.length) 32 ++ content))
+        (line "rej" "first" maxd pre (bs s!"<</Type /ObjStm /N {nobj} /First {f'}>>") data "")
     | 3 =>
       -- object data runs past the next declared offset
       if pos + 1 < nobj then
@@ -820,7 +954,9 @@ def gen (seed n : Nat) (tier : String) (emit : String → IO Unit) : IO Unit := 
       let v := big[x % big.length]?.getD 0
       let ps' := setNth ps (nobj - 1) ((ps[nobj - 1]?.map (·.1)).getD 0, v)
       let (d, dat) := withHdr ps' nobj
-      emit (line "rej" "beyond" maxd pre d dat "")
+      -- (on a view: behind the window an integer can be read at every position up to 1000 bytes beyond it)
+      emitC (some ((List.range 1040).map fun i => if i % 2 == 0 then 32 else 55))
+        (line "rej" "beyond" maxd pre d dat "")
     | 8 =>
       -- identifier corrupted to another fresh one: same members under the new identifier
       let newId := 700000 + x
@@ -839,7 +975,8 @@ def gen (seed n : Nat) (tier : String) (emit : String → IO Unit) : IO Unit := 
       let (nb, r20) := r19.pick ([32, 48, 57, 45, 43, 37, 40, 60, 91, 82, 120, 0] : List UInt8)
       r := r20
       let dat := if x % 2 == 0 then data.take p else setNth data p nb
-      emit (line "mut" "bytes" maxd pre dict dat "")
+      -- (on a view: behind a truncated stream lies its rest)
+      emitC (if x % 2 == 0 then some (data.drop p) else none) (line "mut" "bytes" maxd pre dict dat "")
     | 11 =>
       -- a negative header number (`is_usize` guards `usize_val().unwrap()`); `-0` is zero and legal
       let hs := mkHeader ps ws
@@ -861,7 +998,7 @@ def gen (seed n : Nat) (tier : String) (emit : String → IO Unit) : IO Unit := 
 
 /-- non-trivial: at least two members, or a corruption/flate/filter-chain/minimal-layout case; exhaustive cases count when both
     offsets lie inside the content -/
-def nontrivial (line : String) : Bool :=
+def nontrivialPlain (line : String) : Bool :=
   match parseCase line with
   | none => false
   | some c =>
@@ -869,6 +1006,12 @@ def nontrivial (line : String) : Bool :=
     | "rt" => (c.want.splitOn "] [").length ≥ 2 || c.cls == "flate" || c.cls.startsWith "chain" || c.cls.startsWith "tight"
     | "ex" => match exParts c with | some (ct, a, b) => a < ct.length && b < ct.length && a != b | none => false
     | _ => c.view.length ≥ 12
+
+/-- a case on a view is non-trivial when the case is and the window is a proper part of the allocation -/
+def nontrivial (line : String) : Bool :=
+  match ViewTwin.splitVw line with
+  | some (_, pre, suf, rest) => (pre != "-" || suf != "-") && nontrivialPlain rest
+  | none => nontrivialPlain line
 
 def driver : PropDriver := { gen, model, judge, nontrivial }
 end Driver.C14
